@@ -375,6 +375,10 @@ type retryEnv struct {
 	opts   []grpc.CallOption
 	seq    int
 	opWG   sync.WaitGroup
+	// extraReact lets a component do more at a quiescent point (s_pickdone: publish a new picker).
+	extraReact func() bool
+	// pending carries the result of an op that was reported as blocked and returned later.
+	pending chan string
 }
 
 func newRetryEnv(script []behaviour, serviceConfig string, dopts []grpc.DialOption, kind string, copts []grpc.CallOption) *retryEnv {
@@ -428,7 +432,7 @@ func (e *retryEnv) runOp(fn func() string) string {
 	finish := func(r res) string {
 		for {
 			settle()
-			if !e.srv.react() {
+			if !e.srv.react() && !(e.extraReact != nil && e.extraReact()) {
 				break
 			}
 		}
@@ -436,7 +440,7 @@ func (e *retryEnv) runOp(fn func() string) string {
 	}
 	for {
 		settle()
-		if e.srv.react() {
+		if e.srv.react() || (e.extraReact != nil && e.extraReact()) {
 			continue
 		}
 		select {
@@ -452,6 +456,13 @@ func (e *retryEnv) runOp(fn func() string) string {
 		case <-e.srv.input:
 			tm.Stop()
 		case <-tm.C:
+			e.pending = make(chan string, 1)
+			e.opWG.Add(1)
+			go func(p chan string) {
+				defer e.opWG.Done()
+				r := <-done
+				p <- r.s
+			}(e.pending)
 			return fmt.Sprintf("blocked t=- ev=%s", e.srv.drainEvents())
 		}
 	}
